@@ -4,6 +4,12 @@ const size_t vf_real_min_block_size = MIN_BLOCK_SIZE;
 size_t vf_min_block_size = MIN_BLOCK_SIZE;
 #undef MIN_BLOCK_SIZE
 #define MIN_BLOCK_SIZE vf_min_block_size
+#include <sys/uio.h>
+#include <unistd.h>
 ssize_t vf_write(int, const void *, size_t);
+ssize_t vf_writev(int, const struct iovec *, int);
+ssize_t vf_pwrite(int, const void *, size_t, off_t);
 #define write vf_write
+#define writev vf_writev          /* the same outcome script governs every way of writing the descriptor */
+#define pwrite vf_pwrite
 #include "mtbl/writer.c"
